@@ -117,13 +117,22 @@ let emit id pairs =
   Printf.printf "M %s %s\n" id (String.concat " " (List.map fst pairs));
   Printf.printf "S %s %s\n" id (String.concat " " (List.map snd pairs))
 
-(* a text item is hex[/end/overflow/bits]; "NULL" = null pointer *)
-let parse_item it =
+(* a text item is hex[/end/erange/bits]: libc's end pointer, errno == ERANGE, bit pattern of the value
+   ("nan" for NaN); "NULL" = null pointer.  [fc] = floating type the oracle was asked for *)
+let cls_of_bits fc b =
+  if b = "nan" then FcNaN else
+  match fc with
+  | None -> FcFinite
+  | Some c -> (match fdecode c (z_of_hex b) with
+               | FInf true -> FcNegInf | FInf false -> FcPosInf | FNaN -> FcNaN | FFin (_, _, _) -> FcFinite)
+let parse_item_f fc it =
   match String.split_on_char '/' it with
-  | [h] -> (if h = "NULL" then None else Some (text_of_hex h)), { fo_end = O; fo_overflow = false }, "-"
-  | [h; e; ov; b] -> (if h = "NULL" then None else Some (text_of_hex h)),
-                     { fo_end = nat_of_int (int_of_string e); fo_overflow = (ov = "1") }, b
+  | [h] -> (if h = "NULL" then None else Some (text_of_hex h)), { fo_end = O; fo_erange = false; fo_cls = FcFinite }, "-"
+  | [h; e; er; b] -> (if h = "NULL" then None else Some (text_of_hex h)),
+                     { fo_end = nat_of_int (int_of_string e); fo_erange = (er = "1"); fo_cls = cls_of_bits fc b }, b
   | _ -> failwith ("bad text item " ^ it)
+let parse_item it = parse_item_f None it
+let flt_of_code k = if k = 102 then Some CF32 else if k = 100 then Some CF64 else if k = 101 then Some CF80 else None
 let str_or_empty = function Some s -> s | None -> []
 
 let text_spec base tcode (src : z list option) o obits mo =
@@ -218,8 +227,9 @@ let () =
     | id :: ("tn" | "ts" as kind) :: fmt :: hd :: items ->
       let tk = z_of_string fmt and hd = (hd = "1") in
       let t = tty_of_code tk in
+      let fc = flt_of_code (int_of_string fmt) in
       emit id (List.map (fun it ->
-        let (src, o, ob) = parse_item it in
+        let (src, o, ob) = parse_item_f fc it in
         let f hd = if kind = "tn" then convert_number src t hd o else convert_string src t hd o in
         let mo = tobserve (tgt_cty t) hd (f hd) in
         let m = show_tobs ob mo in
@@ -229,8 +239,9 @@ let () =
     | id :: "tf" :: fmt :: _range :: hd :: items ->
       let tk = z_of_small (Char.code fmt.[0]) and hd = (hd = "1") in
       let t = tty_of_code tk in
+      let fc = flt_of_code (Char.code fmt.[0]) in
       emit id (List.map (fun it ->
-        let (src, o, ob) = parse_item it in
+        let (src, o, ob) = parse_item_f fc it in
         let f hd = (match src with None -> TRefused BadArgument | Some s -> convert_float_text hd s o) in
         let mo = tobserve (tgt_cty t) hd (f hd) in
         let m = show_tobs ob mo in
